@@ -22,7 +22,7 @@ Summary of a function = for every path through its branch decisions: (decisions 
 Equal summaries => equal behaviour for every input (congruence: same symbols applied to same terms in the same effect order).
 Unequal summaries mean nothing (the check is incomplete by design) - then the rule verdicts stand as they are.
 """
-import ast
+import ast, time, os
 from fractions import Fraction
 from .terms import Rat, canon as _canon
 
@@ -539,6 +539,7 @@ def _stringy(e):
 
 _CUR_FUNC = [None]
 _CUR_LOCALS = [frozenset()]
+_DEADLINE = [None]          # wall-clock budget of one function summary (TMVERIF_EQUIV_BUDGET seconds, default 240): beyond it "too many paths"
 
 
 def _mentions(node, v):
@@ -574,7 +575,17 @@ def _def_before_use(block, v):
     return False
 
 
+_DEAD_MEMO = {}
+
+
 def dead_after_iteration(loop, names):
+    key = (id(_CUR_FUNC[0]), id(loop))
+    if key not in _DEAD_MEMO:
+        _DEAD_MEMO[key] = _dead_after_iteration(loop, names)
+    return _DEAD_MEMO[key]
+
+
+def _dead_after_iteration(loop, names):
     """names assigned in the loop whose value at the end of an iteration nobody can observe: not read anywhere outside the loop statement
     (nor by any nested scope), and in every iteration written - by an unconditional plain assignment at the top level of the body that
     does not read the name itself - before the body mentions the name in any other way"""
@@ -609,6 +620,8 @@ def explore(stmts, env, scope, inherited=None, epoch0=0, objid=None, dead=()):
     work = [[]]
     budget = [0]
     while work:
+        if _DEADLINE[0] is not None and time.time() > _DEADLINE[0]:
+            raise TooManyPaths()
         dec = work.pop()
         p = Path(dec, scope)
         p.env = dict(env)
@@ -648,11 +661,14 @@ def summary(func):
     from .canon import locals_of
     _CUR_FUNC[0] = func
     _CUR_LOCALS[0] = frozenset(locals_of(func))
+    _DEADLINE[0] = time.time() + float(os.environ.get("TMVERIF_EQUIV_BUDGET", "240"))
     try:
         paths = explore(body, {}, "n")
     finally:
+        _DEADLINE[0] = None
         _CUR_FUNC[0] = None
         _CUR_LOCALS[0] = frozenset()
+        _DEAD_MEMO.clear()
     # the final bindings of locals are irrelevant at function level: keep decisions, trace, outcome
     return _drop_unobserved_ids(tuple((d, t, _observable_identity(t, o)) for d, t, o, _ in paths))
 
